@@ -44,11 +44,15 @@ static void world_setup(void)
     for (int k = 0; k < NOQ; k++) { OQ[k] = cmb_objectqueue_create(); OQCAP[k] = qcaps[vr_below(&G, 4)]; snprintf(nm, sizeof nm, "oq%d", k); cmb_objectqueue_initialize(OQ[k], nm, OQCAP[k]); oqn[k] = 0; add_guard(&OQ[k]->front_guard, GT_OQFRONT, k); add_guard(&OQ[k]->rear_guard, GT_OQREAR, k); add_rec(RC_OQ, k); }
     for (int k = 0; k < NPQ; k++) { PQ[k] = cmb_priorityqueue_create(); PQCAP[k] = qcaps[vr_below(&G, 4)]; snprintf(nm, sizeof nm, "pq%d", k); cmb_priorityqueue_initialize(PQ[k], nm, PQCAP[k]); pqn[k] = 0; pq_ndead[k] = 0; add_guard(&PQ[k]->front_guard, GT_PQFRONT, k); add_guard(&PQ[k]->rear_guard, GT_PQREAR, k); add_rec(RC_PQ, k); }
     int nobjguards = ngd;
+    /* documented: any guard may observe another one (no cycles): a signal on i is forwarded to j and on to j's observers */
+    memset(GOBS, 0, sizeof GOBS); memset(OBS, 0, sizeof OBS);
+    if (nobjguards >= 2 && vr_chance(&G, 1, 3)) { int nlinks = 1 + (int)vr_below(&G, 2); for (int l = 0; l < nlinks; l++) { int i = (int)vr_below(&G, (uint64_t)nobjguards - 1); int j = i + 1 + (int)vr_below(&G, (uint64_t)(nobjguards - 1 - i)); if (!GOBS[i][j]) { cmb_resourceguard_register(GD[i].g, GD[j].g); GOBS[i][j] = true; VR_CNT("guard_observes_guard_links"); } } }
     for (int k = 0; k < NCV; k++) {
         CV[k] = cmb_condition_create(); snprintf(nm, sizeof nm, "a-condition-with-a-long-name-%d", k); cmb_condition_initialize(CV[k], nm);
         add_guard(&CV[k]->guard, GT_COND, k);
         /* observe every object guard: half through cmb_condition_subscribe, half through cmb_resourceguard_register */
-        for (int g = 0; g < nobjguards; g++) { if ((g + k) & 1) cmb_condition_subscribe(CV[k], GD[g].g); else cmb_resourceguard_register(GD[g].g, &CV[k]->guard); OBS[k][g] = true; }
+        bool subset = vr_chance(&G, 1, 4);
+        for (int g = 0; g < nobjguards; g++) { if (subset && vr_chance(&G, 1, 2)) continue; if ((g + k) & 1) cmb_condition_subscribe(CV[k], GD[g].g); else cmb_resourceguard_register(GD[g].g, &CV[k]->guard); OBS[k][g] = true; }
     }
     for (int k = 0; k < 4; k++) FLAG[k] = 0;
     int nstart = 0;
